@@ -14,6 +14,7 @@ import (
 	"fmt"
 	"sort"
 	"strings"
+	"sync"
 	"testing"
 	"time"
 
@@ -46,8 +47,11 @@ type pEvent struct {
 
 type probeRun struct {
 	*reqRun
+	mu     sync.Mutex
 	reqs   map[int]*pReq
+	byAddr map[string]int
 	events chan pEvent
+	serial int
 }
 
 type pKeyT struct{}
@@ -56,12 +60,15 @@ var pKey = pKeyT{}
 
 const (
 	settleLong  = 5 * time.Second
-	settleShort = 60 * time.Millisecond
+	settleShort = 20 * time.Millisecond
 )
 
 func (p *probeRun) downstream(ctx context.Context, ch *middleware.Chain) {
-	id, _ := ctx.Value(pKey).(int)
+	// a wire-born request is detached from the caller's context: identify it by its client address
+	p.mu.Lock()
+	id := p.byAddr[ch.Writer.RemoteAddr().String()]
 	rq := p.reqs[id]
+	p.mu.Unlock()
 	if rq == nil {
 		ch.CancelWithRcode(dns.RcodeServerFailure, false)
 		return
@@ -73,18 +80,20 @@ func (p *probeRun) downstream(ctx context.Context, ch *middleware.Chain) {
 
 func (p *probeRun) start(id int, k qkey) *pReq {
 	rq := &pReq{id: id, k: k, state: "idle", gate: make(chan outcome, 1), fin: make(chan struct{})}
+	p.serial++
+	addr := fmt.Sprintf("203.0.113.%d:%d", 10+id, 20000+p.serial)
+	p.mu.Lock()
 	p.reqs[id] = rq
+	p.byAddr[addr] = id
+	p.mu.Unlock()
 	req := p.buildReq(k)
 	ctx, cancel := context.WithCancel(context.WithValue(context.Background(), pKey, id))
 	rq.cancel = cancel
 	rq.ctl = &reqCtl{cancel: cancel, variant: p.rng.Intn(2)}
-	rq.ctl.ledger = middleware.NewRecursionWorkLedger(middleware.RecursionWorkPolicy{
-		Mode: middleware.RecursionWorkEnforce, MaxOutboundQueries: 1, MaxInternalQueries: 32})
-	ctx = middleware.WithRecursionWork(ctx, rq.ctl.ledger)
-	rq.w = mock.NewWriter("udp", fmt.Sprintf("203.0.113.%d:4%04d", 10+id, id))
-	ch := middleware.NewChain([]middleware.Handler{p.c, middleware.HandlerFunc(p.downstream)})
+	rq.w = mock.NewWriter("udp", addr)
+	ch := middleware.NewChain([]middleware.Handler{ednsLayer, p.c, middleware.HandlerFunc(p.downstream)})
 	rq.born = "msg"
-	if p.rng.Intn(2) == 0 {
+	if p.rng.Intn(3) == 0 {
 		if raw, err := req.Pack(); err == nil {
 			wr := new(middleware.Request)
 			if wr.ParseWire(raw, time.Now(), nil) {
@@ -269,6 +278,9 @@ func (p *probeRun) finish(id int, o outcome, label string) bool {
 	if o.O == "authfail" && o.Z < 0 {
 		o.O = "servfail"
 	}
+	if o.O == "cancel" && rq.born == "wire" {
+		o.O = "deadline" // a wire-born request is detached from the caller's context: nothing to cancel from here
+	}
 	if o.O == "deadline" {
 		rq.ctl.variant = 0
 	}
@@ -307,6 +319,9 @@ func (p *probeRun) finish(id int, o outcome, label string) bool {
 	want := 1 // the finished request's own "done"
 	for _, f := range woken {
 		switch {
+		case o.O == "useful" && f.k.n == k.n && f.k.t == k.t && f.k.c == k.c && f.k.cd == k.cd:
+			exps[f.id] = exp{kind: "answered"} // the leader's answer, from the ordinary answer cache
+			want++
 		case p.o.covering(f.k):
 			exps[f.id] = exp{kind: "hit"}
 			want++
@@ -369,6 +384,9 @@ func (p *probeRun) finish(id int, o outcome, label string) bool {
 			hit := f.rp.cachedFailure()
 			shed := f.rp.written && f.rp.rcode == dns.RcodeServerFailure && f.rp.text == probeLimitText
 			switch {
+			case e.kind == "answered" && f.rp.written && f.rp.rcode == dns.RcodeSuccess:
+				p.res.Count("followers_answered", 1)
+				continue
 			case hit && e.kind != "hit":
 				p.bad("Containment", "%s was answered SERVFAIL/EDE 13 although no recorded failure covers it (retained: %s)", desc, describe(p.o))
 			case hit:
@@ -461,7 +479,7 @@ func TestProbeReplay(t *testing.T) {
 			break
 		}
 		p := &probeRun{reqRun: newReqRun(&in, res, tr, pi, rng, path.ID, "TestProbeReplay"),
-			reqs: map[int]*pReq{}, events: make(chan pEvent, 256)}
+			reqs: map[int]*pReq{}, byAddr: map[string]int{}, events: make(chan pEvent, 256)}
 		start := res.NViolations()
 		ops := []string{}
 		for _, s := range path.Steps {
